@@ -33,6 +33,14 @@ hist.update({'m6_C20f':'caught as built','m6_C09f':'caught as built','m6_C08f':'
 summ.update({'m6_C02f':'DIV floors instead of truncating toward zero (-7 DIV 2 = -4)','m6_C03f':'a NULL/missing grouping cell is left out of the row key and matches any existing group','m6_C05f':'ORDER BY runs before projection: aliases and computed columns are not visible as sort keys','m6_C08f':'empty inner arrays are skipped: nesting of the result changes',
 'm6_C09f':'range (n:end) skips the bounds check: begin beyond the array length panics','m6_C11f':'outer hash join writes the NULL partner key into the caller\'s row when the preserved table has no alias','m6_C14f':'Exec returns without waiting when no post-processor was registered (SPINASYNC only queries)','m6_C15f':'mixed integer types compared through int64: uint64 ≥ 2^63 wraps negative',
 'm6_C16f':'negative int64 arguments rendered as (-N) via -arg: MinInt64 flips sign','m6_C18f':'CHANGETYPE(v, integer) parses with base 0 (010 is 8, 0x1F accepted)','m6_C19f':'HAVING: the skip-group test precedes the error test, failing groups are silently dropped','m6_C20f':'SETVAR(k, NULL) is a no-op: the earlier value stays readable'})
+
+hist.update({'m7_C06g':'caught as built','m7_C16g':'caught as built','m7_C04g':'caught as built','m7_C03g':'caught as built','m7_C01g':'caught as built',
+'m7_C07g':'inconclusive as built (sqlparser.String on a node value the library copied had no model) → AST nodes are lowered back to native nodes by reflection; then missed → root- and CTE-sourced correlated subqueries added to H_C07_subquery','m7_C09g':'missed → a top-level function and a keep=> marker in one selector segment added to H_C09_reader',
+'m7_C10g':'missed by C10 (C09 catches the same range panic) → out-of-range ranges and indexes in FROM paths added to H_C10_queries2','m7_C13g':'missed → H_C13_selfpairs (every query of the other properties\' lists run by two threads at once under the race monitor; regexp.Compile/MatchString intrinsics); the new harness also found the genuine AWAIT(ASYNC.f(x)) race (fixed 7a1dba1)',
+'m7_C17g':'missed → a backslash alphabet for H_C17_arrays','m7_C19g':'missed → H_C19_typeerrors (a wrong-shaped cell at every row position × 15 clause positions incl. ORDER BY keys)','m7_C12g':'missed → chains of asynchronous slots ending in NULL added to H_C12_plain'})
+summ.update({'m7_C01g':'the WHERE result slice is query.from[:0]: filtering compacts the caller\'s table in place','m7_C03g':'whole-table aggregates fall back to the unfiltered table when WHERE rejects every row','m7_C04g':'nested-loop outer join emits only the first row of an unmatched duplicate-key group','m7_C06g':'DISTINCT reuses one hasher and skips Reset after a dropped duplicate',
+'m7_C07g':'`<-`-sourced subqueries are memoised per query although they still refer to the current outer row','m7_C09g':'ParseSelector splits on every `=>`: fn=> with a later keep=> is not recognised as a function call','m7_C10g':'ranges using `end` skip the bounds check: begin beyond the array panics out of New','m7_C12g':'the async-slot chain stops one step early when the next slot holds NULL: a *interface{} reaches the row',
+'m7_C13g':'LIKE memoises the last compiled pattern in package-level variables without synchronisation','m7_C16g':'NUL is rewritten to \\0 before backslashes are doubled','m7_C17g':'FindArrayIndex skips the byte after a backslash only if it is a quote: an escaped backslash before a closing quote inverts quote tracking','m7_C19g':'ORDER BY comparator treats a failed read of the second operand\'s key as NULL'})
 rows=[]
 for d in sorted(glob.glob('/verif/seeded/m*')):
     n=os.path.basename(d)
